@@ -1,6 +1,6 @@
 ------------------------------ MODULE MC_Mmio ------------------------------
 (* Model checking of the C12 property layer of Mmio.tla.                      *)
-(* A state is (b, A, v): base state number, written offset, written value.    *)
+(* A state is (bid, woff, wval) = (b, A, v): base state number, written offset, written value.    *)
 (* Init enumerates b x A (v = NoVal: the read-only checks run here), one Next  *)
 (* step picks v; every invariant is a statement about Write(BaseOf(b), A, v)   *)
 (* quantified over all other offsets B (and, for the DMA window, over all      *)
@@ -14,12 +14,13 @@
 (*        register written, eight distinct DMA channels, timers armed in event  *)
 (*        mode with the mirror on, mailbox words pending, FIFO part-full/full,  *)
 (*        window relocated, ZPAGE set); 4, 5 = Teakra::Reset applied to 2, 3    *)
-(*        (raw BitFieldCell words survive next to reset fields)                 *)
-EXTENDS Mmio
+(*        (raw BitFieldCell words survive next to reset fields); 6 the timers   *)
+(*        the other way round, 7 = Reset applied to 6                           *)
+EXTENDS Mmio, SequencesExt
 
 CONSTANTS ValMode, NBases
-VARIABLES b, A, v
-vars == <<b, A, v>>
+VARIABLES bid, woff, wval      \* (names that no operator of Mmio.tla uses for a parameter)
+vars == <<bid, woff, wval>>
 
 NoVal == 99999
 Walk1 == { 2^k : k \in 0..15 }
@@ -33,16 +34,13 @@ WriteSet == DocOffs \cup SampleOffs
 
 -----------------------------------------------------------------------------
 (* base states: programs of writes and host mailbox calls run on Fresh        *)
-Step(s, op) == CASE op[1] = "W"    -> Write(s, op[2], op[3]).s
-                 [] op[1] = "HS"   -> HostSend(s, op[2], op[3])
-                 [] op[1] = "HSem" -> HostSetSem(s, op[3])
-\* fold by halves: recursion depth log2(Len(ops)) (TLC evaluates recursion on the Java stack)
-RECURSIVE RunRange(_, _, _, _)
-RunRange(s, ops, lo, hi) ==
-    IF lo > hi THEN s
-    ELSE IF lo = hi THEN Step(s, ops[lo])
-    ELSE LET mid == (lo + hi) \div 2 IN RunRange(RunRange(s, ops, lo, mid), ops, mid + 1, hi)
-RunOps(s, ops, i) == RunRange(s, ops, i, Len(ops))
+\* (the test on s forces TLC's lazily passed argument here, not deep inside Write)
+Step(s, op) == IF s[ActiveK] > 65535 THEN s
+               ELSE CASE op[1] = "W"    -> Write(s, op[2], op[3]).s
+                      [] op[1] = "HS"   -> HostSend(s, op[2], op[3])
+                      [] op[1] = "HSem" -> HostSetSem(s, op[3])
+\* FoldLeft has a Java implementation (a loop): no TLA+ recursion, no stack depth
+RunOps(s, ops, i) == FoldLeft(Step, s, ops)
 SortedSeq(S) == [i \in 1..Cardinality(S) |-> CHOOSE x \in S : Cardinality({ y \in S : y < x }) = i - 1]
 Pat(o, salt) == (o * 40503 + salt * 12345 + \h1357) % 65536
 W(o, x) == <<"W", o, x>>
@@ -74,34 +72,39 @@ Base2 == RunOps(Fresh, Ops2, 1)
 Base3 == RunOps(Fresh, Ops3, 1)
 Base4 == ResetEffect(Base2)
 Base5 == ResetEffect(Base3)
+\* the two timers the other way round (timer 1 about to expire, timer 0 about to borrow)
+Base6 == RunOps(Fresh, << W(\h34, 1), W(\h36, 0), W(\h30, \h060C), W(\h24, 0), W(\h26, 1), W(\h20, \h060C) >>, 1)
+Base7 == ResetEffect(Base6)
 BaseOf(i) == CASE i = 1 -> Fresh [] i = 2 -> Base2 [] i = 3 -> Base3 [] i = 4 -> Base4 [] i = 5 -> Base5
+               [] i = 6 -> Base6 [] i = 7 -> Base7
 Bases == 1..NBases
 
 -----------------------------------------------------------------------------
-Init == b \in Bases /\ A \in WriteSet /\ v = NoVal
-Next == v = NoVal /\ v' \in Values /\ UNCHANGED <<b, A>>
+Init == bid \in Bases /\ woff \in WriteSet /\ wval = NoVal
+Next == wval = NoVal /\ wval' \in Values /\ UNCHANGED <<bid, woff>>
 Spec == Init /\ [][Next]_vars
 
-Chosen == v # NoVal
-S0 == BaseOf(b)
+Chosen == wval # NoVal
+\* written channels c of the window clause (every other channel d in 0..7 is compared)
+ChanSet == IF ValMode >= 2 THEN 0..7 ELSE { 0, 3, 7 }
+S0 == BaseOf(bid)
 
-TypeOK == /\ b \in Bases /\ A \in WriteSet /\ v \in Values \cup { NoVal }
-          /\ Chosen => LET w == Write(S0, A, v) IN
+TypeOK == /\ bid \in Bases /\ woff \in WriteSet /\ wval \in Values \cup { NoVal }
+          /\ Chosen => LET w == Write(S0, woff, wval) IN
                 /\ w.out \in { "ok", "assert", "oob" }
                 /\ DOMAIN w.s = Keys
-                /\ \A k \in Keys : w.s[k] \in 0..65535
-                /\ w.out = "oob" <=> (A \in WindowOffs /\ S0[ActiveK] >= 8)
-                /\ Read(w.s, A) \in 0..65535
-ReadBack           == Chosen => ReadBackAt(S0, A, v)
-NonAliasing        == Chosen => NonAliasingAt(S0, A, v)
-HiddenFrame        == Chosen => HiddenFrameAt(S0, A, v)
-ReadPurity         == ~ Chosen => ReadPurityAt(S0, A)
-PathsAgree         == ~ Chosen => PathsAgreeAt(S0, A)
-ChannelIndependent == (Chosen /\ A \in WindowOffs) => ChannelIndependentAt(S0, A, v, FALSE)
+                /\ w.out = "oob" <=> (woff \in WindowOffs /\ S0[ActiveK] >= 8)
+                /\ Read(w.s, woff) \in 0..65535
+ReadBack           == Chosen => ReadBackAt(S0, woff, wval)
+NonAliasing        == Chosen => NonAliasingAt(S0, woff, wval)
+HiddenFrame        == Chosen => HiddenFrameAt(S0, woff, wval)
+ReadPurity         == ~ Chosen => ReadPurityAt(S0, woff)
+PathsAgree         == ~ Chosen => PathsAgreeAt(S0, woff)
+ChannelIndependent == (Chosen /\ woff \in WindowOffs) => ChannelIndependentAt(S0, woff, wval, FALSE, ChanSet)
 \* strict forms: violated by the pinned code (MC_Mmio_pinned*.cfg), hold with the Fixed* constants
-ChannelIndependentStrict == (Chosen /\ A \in WindowOffs) => ChannelIndependentAt(S0, A, v, TRUE)
+ChannelIndependentStrict == (Chosen /\ woff \in WindowOffs) => ChannelIndependentAt(S0, woff, wval, TRUE, ChanSet)
 \* CM = 7 is not a documented count mode; 4..6 are (watchdog modes)
-NoAbort == (Chosen /\ ~ (A \in { \h20, \h30 } /\ Field(v, 2, 3) = 7)) => NoAbortAt(S0, A, v)
+NoAbort == (Chosen /\ ~ (woff \in { \h20, \h30 } /\ Field(wval, 2, 3) = 7)) => NoAbortAt(S0, woff, wval)
 
 -----------------------------------------------------------------------------
 (* facts about the table itself, evaluated once                              *)
@@ -115,7 +118,7 @@ ASSUME /\ Read(Fresh, \h01A) = \hC902 /\ Read(Fresh, \h114) = \h1E20 /\ Read(Fre
        /\ Read(Fresh, \h2C2) = \h10   /\ Read(Fresh, \h342) = \h10
        /\ \A o \in Watch \ { \h01A, \h114, \h116, \h11E, \h18C, \h2C2, \h342 } : Read(Fresh, o) = 0
 \* the bases are what their programs intend
-ASSUME /\ \A i \in 1..5 : DOMAIN BaseOf(i) = Keys /\ \A k \in Keys : BaseOf(i)[k] \in 0..65535
+ASSUME /\ \A i \in 1..7 : DOMAIN BaseOf(i) = Keys /\ \A k \in Keys : BaseOf(i)[k] \in 0..65535
        /\ Base2[ActiveK] = 3 /\ Base2[TK(0, "cnt_lo")] = 1 /\ Base2[TK(0, "ctr_low")] = 1 /\ Base2[TK(1, "cnt_lo")] = 2
        /\ Base2[K("bt", 0, "qlen")] = 3 /\ Base2[FC("ready0")] = 1 /\ Base2[FC("signal")] = 1
        /\ Base3[ActiveK] = 7 /\ Base3[TK(1, "cnt_hi")] = 1 /\ Base3[TK(0, "cnt_lo")] = 0
@@ -123,7 +126,7 @@ ASSUME /\ \A i \in 1..5 : DOMAIN BaseOf(i) = Keys /\ \A k \in Keys : BaseOf(i)[k
        /\ Read(Base3, \h200) = (Read(Base3, \h200) | \h4000)
 \* every coupling that is claimed is real (the relation is tight): some base and value shows it
 CoupledTight ==
-    /\ \A p \in Coupled : \E i \in 1..3, x \in Values :
+    /\ \A p \in Coupled : \E i \in { 1, 2, 3, 6 }, x \in Values :
            Read(Write(BaseOf(i), p[1], x).s, p[2]) # Read(BaseOf(i), p[2])
     /\ \A p \in ReadCoupled : \E i \in 1..3 : Read(ReadEffect(BaseOf(i), p[1]), p[2]) # Read(BaseOf(i), p[2])
 ASSUME CoupledTight
